@@ -14,6 +14,8 @@ A_KINDS = ["cut", "cut_open_fragment", "cut_compressed", "client_closing", "serv
            # abandoned with the generator object still referenced; it is only finalised after the NEXT connect() call
            # (``events = ws.connect()`` re-using the variable) or while the next connection is running
            "abandon_hold"]
+NON_DEFAULT = {"sb": 9, "cb": 10, "snct": True, "cnct": True}       # a previous connection negotiated these ...
+NON_DEFAULT_2 = {"sb": 12, "cb": 15, "snct": False, "cnct": False}    # ... and the next one these
 RELEASE_POINTS = ["after_connect", "after_connect", 0, 1, 2, 3, 4, 6]
 
 
@@ -28,10 +30,15 @@ def deflate_stream(seed_payloads, peer):
     return bytes(out)
 
 
+def ext_reply(deflate):
+    """Handshake reply for a deflate dimension value (False / True / configuration dict)."""
+    return httpref.canonical_spec(extensions=[deflateref.header_of(deflate)]) if deflate else None
+
+
 def attempt_A(a, deflate):
     """One abnormal previous connection."""
     kind = a["kind"]
-    reply = deflate_reply() if deflate else None
+    reply = ext_reply(deflate)
     reply_len = len(httpref.build_reply(reply, b""))
     frac = a.get("frac", 500) / 1000.0
     sends = [{"when": ["event", "ready", 0], "do": [["send_text", "previous connection " * 4], ["send_binary", "00" * 40],
@@ -57,7 +64,7 @@ def attempt_A(a, deflate):
         return {"script": [["wait_request"], ["stream", [["reply", reply], ["bytes", data]], "whole", 0.0],
                            [a.get("end", "eof"), 0.0]], "reactions": sends}
     if kind == "cut_compressed":
-        peer = deflateref.Peer()
+        peer = deflateref.peer_of(deflate)
         payloads = [b"shared history between connections " * 8, bytes(range(256)) * 3, b"shared history between connections " * 8]
         data = deflate_stream(payloads, peer) if deflate else build.build_session(
             [{"kind": "binary", "payload": ["rep", 600, 1], "frag": [100]}]).data
@@ -86,7 +93,7 @@ def attempt_A(a, deflate):
     if kind == "protocol_error":
         data = B(wire.TEXT, b"fr", fin=0) + violating_frames({"class": CLASSES[a.get("frac", 0) % len(CLASSES)],
                                                                "a": a.get("frac", 0), "b": 1, "open": True,
-                                                               "open_text": True}, deflate)
+                                                               "open_text": True}, bool(deflate))
         return {"script": [["wait_request"], ["stream", [["reply", reply], ["bytes", data]], "whole", 0.0], ["eof", 0.0]],
                 "reactions": sends}
     if kind == "timers":
@@ -98,8 +105,8 @@ def attempt_A(a, deflate):
 
 
 def attempt_B(b, deflate):
-    reply = deflate_reply() if deflate else None
-    peer = deflateref.Peer()
+    reply = ext_reply(deflate)
+    peer = deflateref.peer_of(deflate)
     msgs = []
     for i, m in enumerate(b["msgs"]):
         m = dict(m)
@@ -109,7 +116,7 @@ def attempt_B(b, deflate):
     built = build.build_session(msgs, (lambda payload, msg: peer.compress(payload)) if deflate else None)
     data = bytes(built.data)
     if b.get("viol") is not None:
-        data += violating_frames({"class": CLASSES[b["viol"] % len(CLASSES)], "a": b["viol"], "b": 0}, deflate)
+        data += violating_frames({"class": CLASSES[b["viol"] % len(CLASSES)], "a": b["viol"], "b": 0}, bool(deflate))
     if b.get("close"):
         data += B(wire.CLOSE, struct.pack("!H", 1000) + b"done")
     from props.c01 import effective_seg
@@ -188,8 +195,9 @@ class C17(Prop):
             "close": st.booleans(), "app_close": st.one_of(st.none(), st.none(), st.integers(0, 3)),
             "timers": st.booleans(), "idle": st.one_of(st.none(), st.integers(1, 12)),
             "seg": st.sampled_from(["whole", "whole", ["uniform", 3], ["uniform", 64]]),
-            "deflate": st.booleans()})
-        return st.fixed_dictionaries({"A": st.lists(a, min_size=1, max_size=4), "B": b, "deflate": st.booleans()})
+            "deflate": gen.deflate_opt()})
+        # the previous connections and B negotiate permessage-deflate independently (off / defaults / drawn parameters)
+        return st.fixed_dictionaries({"A": st.lists(a, min_size=1, max_size=4), "B": b, "deflate": gen.deflate_opt()})
 
     def enumerations(self, tier):
         def pairs():
@@ -201,9 +209,9 @@ class C17(Prop):
             ]
             for kind in A_KINDS:
                 for frac in (0, 130, 500, 999):
-                    for deflate in (False, True):
+                    for deflate in (False, True, NON_DEFAULT):
                         for bi, b0 in enumerate(bs):
-                          for bdef in (False, True):
+                          for bdef in (False, True, NON_DEFAULT_2):
                             b = dict(b0, deflate=bdef)
                             yield {"A": [{"kind": kind, "frac": frac, "msgs": [{"kind": "text", "payload": ["str", "prev"],
                                                                                  "frag": [2]}], "end": "eof"}],
@@ -242,8 +250,9 @@ class C17(Prop):
             chain["ws_opts"] = ws_opts
             fresh["ws_opts"] = ws_opts
         labels = {"A:" + a["kind"] for a in case["A"]}
-        traces = simnet.run_chain(chain)
+        # the fresh-object reference runs FIRST: whatever the chain leaves behind in the process cannot reach it
         ref = simnet.run_chain(fresh)[0]
+        traces = simnet.run_chain(chain)
         trB = traces[-1]
         prev_ready = any("ready" in t.names() for t in traces[:-1])
         nontrivial = prev_ready and "ready" in ref.names()
